@@ -856,7 +856,7 @@ def run(tier, seed, replay=None):
     })
     out.assumptions += [
         "POSIX path semantics (os.sep = '/'); Windows drive letters and symlinks are outside the model; the oracle uses realpath containment under a symlink-free temp root",
-        "RailsConfig.from_path and LLMRails are replaced in the harness process by recording fakes (loader raises ValueError iff '!' in path; reply = hash of instance paths and messages, raising when divisible by 13); in the theorems they are arbitrary functions",
+        "RailsConfig.from_path and LLMRails are replaced in the harness process by recording fakes (loader raises ValueError iff '!' in path; reply = a message chosen by a hash of instance paths and messages - plain, empty/whitespace/null/missing content, equal to an earlier user message, 2000 characters, non-string content, role 'exception', returned as dict or GenerationResponse - raising when the hash is divisible by 13); in the theorems they are arbitrary functions",
         "messages are JSON values on which json.dumps/json.loads is the identity (exercised with quotes, backslashes, control and non-BMP characters); requests carry a `messages` list; a datastore is registered",
         "streaming requests do not persist threads (TODO in chat_completion) and are outside the quantified request sequences; auto-reload cache eviction is not modelled",
         "pydantic's own machinery is trusted to apply the RequestBody validators; their effect (config_id -> [config_id], length bounds) is modelled and compared through TestClient",
